@@ -1,7 +1,7 @@
 """C19: SASL -- no connection without successful authentication; SCRAM is mutual."""
 from props import endpoint
 
-KEEP = {"Init", "ApiCall", "ApiRet", "PHeader", "PSasl", "PFrame", "PRaw", "EHeader", "ESasl", "EFrame", "EEof", "PEof", "End", "Spin"}
+KEEP = {"Init", "ApiCall", "ApiRet", "PHeader", "PSasl", "PFrame", "PRaw", "EHeader", "ESasl", "EFrame", "EEof", "PEof", "End", "Spin", "Mark"}
 
 
 def check(pid, tier, replay):
